@@ -520,3 +520,53 @@ def index_family(job):
                 R.violation("trace-depends-on-values", "array program: canonical trace for indices %s (%s) differs from indices %s at event %d" % (
                     idx, kind, ref[0][2:], pos), src=src, inputs_a=ref[0], inputs_b=inputs, ignore_b=not checked, bl=16, res=0, p=recorder.BN254)
     return {"C06": R.export()}
+
+
+def fingerprints(job):
+    """C06 across interpreters: the same programs (generated from the same seed) run in two processes that differ in their
+    hash seed and in the secret inputs; returns one fingerprint of the canonical trace per program (None if the run raised)"""
+    import hashlib
+    from vf.gen import prog as G
+    from vf import recorder
+    from vf.checks import C09
+    rt = boot.attach()
+    neutral = boot.Neutral()
+    out = []
+    srcs = []
+    for n in range(job["nprogs"]):
+        rnd = random.Random("%s/%d" % (job["seed"], n))
+        if n % 2 == 0:
+            # block-API program: several context variables modified under secret conditions
+            tg = C09.TreeGen(rnd)
+            tree = tg.program()
+            head = ["_ = BranchingValues()", "_.a = PrivVal(I[0])", "_.b = PrivVal(I[1])", "_.c = PrivVal(I[2])"]
+            if tg.lists:
+                head += ["_.l = [_.a + 0, _.b + 1, ConstVal(3)]", "_.m = [[_.a + 1, _.b + 0], [_.c + 0, ConstVal(2)]]"]
+            if tg.fxp:
+                head += ["_.f = PrivValFxp(I[0] / 2.0)"]
+            if tg.arrays:
+                head += ["_.arr = Array([_.a + 1, _.b + 2, ConstVal(9)])"]
+            if tg.shared:
+                head += ["S = [_.a + 2, _.b + 3, ConstVal(5)]", "T = [_.c + 1, ConstVal(7), _.a + 0]"]
+            src = "\n".join(head + C09.render(tree, True)) + "\n"
+            vecs = [[rnd.randint(0, 6), rnd.randint(0, 6), rnd.randint(0, 6)] for _ in range(2)]
+            prog = G.Prog(src, [], 32, 4)
+        else:
+            g = G.Gen(rnd, features=rnd.choice(FEATURE_MIXES))
+            prog = g.program(nstmts=rnd.randint(3, 10))
+            src = prog.src
+            vecs = [prog.primary(), G.mutate_inputs(prog, rnd, "valid")]
+        inputs = vecs[job["vec"] % 2]
+        try:
+            res = G.run_api(prog, inputs, neutral, modulus=recorder.BN254)
+        except SyntaxError:
+            out.append(None)
+            srcs.append(src)
+            continue
+        srcs.append(src)
+        if res.exc is not None:
+            out.append(None)
+            continue
+        tr = r1cs.canon_trace(res.snap)
+        out.append([hashlib.sha1(repr(tr).encode()).hexdigest(), len(tr), inputs])
+    return dict(fingerprints=out, sources=srcs if job.get("keep_sources") else None)
